@@ -508,8 +508,34 @@ def _search_loops(tree):
     return tree
 
 
+def _param_defaults(tree):
+    """N8c: `if c: p = V` for a parameter p of the enclosing function (always bound) is `p = V if c else p`"""
+    for fn in ast.walk(tree):
+        if not isinstance(fn, (ast.FunctionDef, ast.AsyncFunctionDef)):
+            continue
+        a = fn.args
+        params = {x.arg for x in a.posonlyargs + a.args + a.kwonlyargs}
+        for holder in ast.walk(fn):
+            if holder is not fn and isinstance(holder, (ast.FunctionDef, ast.AsyncFunctionDef, ast.Lambda)):
+                continue
+            for f in ("body", "orelse", "finalbody"):
+                lst = getattr(holder, f, None)
+                if not (isinstance(lst, list) and lst and isinstance(lst[0], ast.stmt)):
+                    continue
+                for i, st in enumerate(lst):
+                    if isinstance(st, ast.If) and not st.orelse and len(st.body) == 1 and isinstance(st.body[0], ast.Assign) and len(st.body[0].targets) == 1 \
+                            and isinstance(st.body[0].targets[0], ast.Name) and st.body[0].targets[0].id in params:
+                        p_ = st.body[0].targets[0].id
+                        lst[i] = ast.copy_location(ast.Assign(
+                            targets=[ast.Name(id=p_, ctx=ast.Store())],
+                            value=_canon_ifexp(ast.copy_location(ast.IfExp(test=st.test, body=st.body[0].value, orelse=ast.Name(id=p_, ctx=ast.Load())), st))), st)
+                        ast.fix_missing_locations(lst[i])
+    return tree
+
+
 def normalise(tree: ast.AST) -> ast.AST:
     tree = Normalise().visit(tree)
+    tree = _param_defaults(tree)
     tree = _search_loops(tree)
     tree = _loops_over_generators(tree)
     tree = _accumulate_loops(tree)
